@@ -148,6 +148,19 @@ pub fn parse_tags_rs(src: &str) -> Dict {
                             if !d.starts_with(alias) {
                                 problems.push(format!("entry {alias}: doc comment says {d:?}"));
                             }
+                            // "(gggg,eeee)" in the doc comment; 'x' marks the repeating digits
+                            if let (Some(a), Some(b)) = (d.find('('), d.find(')')) {
+                                let inner: String = d[a + 1..b].chars().filter(|c| *c != ',').collect();
+                                let have = format!("{:04X}{:04X}", tag.0, tag.1);
+                                if inner.len() == 8 {
+                                    for (x, y) in inner.chars().zip(have.chars()) {
+                                        if x != 'x' && x != 'X' && x.to_ascii_uppercase() != y {
+                                            problems.push(format!("entry {alias}: doc comment tag {inner} vs constant {have}"));
+                                            break;
+                                        }
+                                    }
+                                }
+                            }
                         }
                         entries.push(Entry {
                             kind: kind.clone(),
@@ -225,4 +238,71 @@ impl Dict {
             Lookup::None => "UN",
         }
     }
+}
+
+/// An entry of a UID table in `uids.rs`: `E::new("uid", "name", "alias", Kind, retired)`
+#[derive(Clone, Debug)]
+pub struct UidEntry {
+    pub uid: String,
+    pub name: String,
+    pub alias: String,
+    pub kind: String,
+    pub retired: bool,
+    /// which table the row belongs to (e.g. SOP_CLASSES, TRANSFER_SYNTAXES)
+    pub table: String,
+}
+
+/// Parse every `pub(crate) const <TABLE>: &[E] = &[ E::new(...), ... ];` table of uids.rs
+pub fn parse_uids_rs(src: &str) -> Vec<UidEntry> {
+    let mut out = vec![];
+    let mut table: Option<String> = None;
+    for line in src.lines() {
+        let t = line.trim();
+        if let Some(rest) = t.strip_prefix("pub(crate) const ") {
+            if let Some((name, _)) = rest.split_once(':') {
+                table = Some(name.trim().to_string());
+            }
+            continue;
+        }
+        if t.starts_with("];") {
+            table = None;
+            continue;
+        }
+        if let (Some(tb), Some(rest)) = (&table, t.strip_prefix("E::new(")) {
+            // "uid", "name", "alias", Kind, bool),
+            let mut strings = vec![];
+            let mut cur = String::new();
+            let mut in_str = false;
+            let mut esc = false;
+            let mut tail = String::new();
+            for ch in rest.chars() {
+                if strings.len() == 3 && !in_str {
+                    tail.push(ch);
+                    continue;
+                }
+                if in_str {
+                    if esc {
+                        cur.push(ch);
+                        esc = false;
+                    } else if ch == '\\' {
+                        esc = true;
+                    } else if ch == '"' {
+                        in_str = false;
+                        strings.push(std::mem::take(&mut cur));
+                    } else {
+                        cur.push(ch);
+                    }
+                } else if ch == '"' {
+                    in_str = true;
+                }
+            }
+            if strings.len() == 3 {
+                let parts: Vec<&str> = tail.trim_matches(|c| c == ',' || c == ' ').trim_end_matches("),").trim_end_matches(')').split(',').map(|s| s.trim()).collect();
+                let kind = parts.first().copied().unwrap_or("").to_string();
+                let retired = parts.get(1).map(|s| s.starts_with("true")).unwrap_or(false);
+                out.push(UidEntry { uid: strings[0].clone(), name: strings[1].clone(), alias: strings[2].clone(), kind, retired, table: tb.clone() });
+            }
+        }
+    }
+    out
 }
